@@ -17,7 +17,8 @@ U0 == <<
   L(<<R(1, 2), R(3, 2)>>), L(<<I(1), R(5, 2)>>),
   L(<<Ints(<<1, 2>>), Ints(<<3, 4>>)>>), L(<<Ints(<<1, 2, 3>>), Ints(<<4, 5, 6>>)>>), L(<<Ints(<<1>>), Ints(<<2>>), Ints(<<3>>)>>),
   L(<<I(1), Ints(<<2, 3>>)>>), L(<<Ints(<<1>>), Ints(<<2, 3>>)>>),
-  L(<<S(<<97, 98>>), S(<<99, 100>>)>>), L(<<I(1), S(<<97, 98>>), Y(<<120>>)>>)
+  L(<<S(<<97, 98>>), S(<<99, 100>>)>>), L(<<I(1), S(<<97, 98>>), Y(<<120>>)>>),
+  L(<<Y(<<120>>), I(0), I(1)>>), L(<<S(<<97, 98>>), I(1), I(0)>>)
 >>
 
 U1 == U0 \o <<
@@ -32,7 +33,7 @@ U1 == U0 \o <<
 Ops == IF Tier = "quick" THEN U0 ELSE U1
 
 MSeq == <<"@", "!", "&", "*", "#", "^", ",", "~", "?", "|", "+", "=", "<", ">", "-", "%", "_", ":_", ":#">>
-DSeq == <<"+", "-", "*", "%", ":%", "!", "^", "&", "|", "<", ">", "=", "~", ",", "#", "_", "@", "?", ":+", ":#", ":_", ":^", ":=">>
+DSeq == <<"+", "-", "*", "%", ":%", "!", "^", "&", "|", "<", ">", "=", "~", ",", "#", "_", "@", "?", ":+", ":#", ":_", ":^", ":=", ":-">>
 
 VARIABLES vi, ai, bi
 Init == vi = 1 /\ ai = 1 /\ bi = 0
